@@ -156,7 +156,8 @@ Definition run (req : sexp) : sexp :=
       or_bad (odo x <- as_ast a ;; odo e <- as_fnenv fe ;; odo pn <- as_name p ;; odo kn <- as_name q ;;
               Some (s_bool (can_signb (fnenv_lookup e) x pn kn)))
   | SList [SNum 7; mm] => or_bad (odo x <- as_model mm ;; Some (s_bool (saneb x)))
-  | SList [SNum 8; a] => or_bad (odo x <- as_ast a ;; Some (s_bool (static_ok x)))
+  | SList [SNum 8; a] => or_bad (odo x <- as_ast a ;; Some (SList [s_bool (static_ok x); s_bool (no_rule_sign_cycle x)]))
+  | SList [SNum 9; mm] => or_bad (odo x <- as_model mm ;; Some (s_bool (sign_acyclicb x)))
   (* batch forms: one answer per name / pair *)
   | SList [SNum 13; mm; fe; fuel; nms] =>
       or_bad (odo x <- as_model mm ;; odo e <- as_fnenv fe ;; odo k <- as_nat fuel ;; odo ns <- as_list_of as_name nms ;;
